@@ -58,15 +58,19 @@ type node struct {
 
 func (r *ring) PutOne(_ context.Context, m Completed) (chan RedisResult, error) {
 	n := &r.store[atomic.AddUint32(&r.write, 1)&r.mask]
+	verifEv(evPutTicket, verifCmdID(m), verifSlot(r, n))
 	n.c1.L.Lock()
 	for n.mark != 0 {
+		verifEv(evPutPark, verifCmdID(m), verifSlot(r, n))
 		n.c1.Wait()
 	}
 	n.one = m
 	n.mark = 1
 	s := n.slept
+	verifEv(evPutFill, verifCmdID(m), verifB(s))
 	n.c1.L.Unlock()
 	if s {
+		verifEv(evPutBcastPre, verifSlot(r, n), 0)
 		n.c2.Broadcast()
 	}
 	return n.ch, nil
@@ -74,16 +78,20 @@ func (r *ring) PutOne(_ context.Context, m Completed) (chan RedisResult, error) 
 
 func (r *ring) PutMulti(_ context.Context, m []Completed, resps []RedisResult) (chan RedisResult, error) {
 	n := &r.store[atomic.AddUint32(&r.write, 1)&r.mask]
+	verifEv(evPutTicket, verifCmdID(m[0]), verifSlot(r, n))
 	n.c1.L.Lock()
 	for n.mark != 0 {
+		verifEv(evPutPark, verifCmdID(m[0]), verifSlot(r, n))
 		n.c1.Wait()
 	}
 	n.multi = m
 	n.resps = resps
 	n.mark = 1
 	s := n.slept
+	verifEv(evPutFill, verifCmdID(m[0]), verifB(s))
 	n.c1.L.Unlock()
 	if s {
+		verifEv(evPutBcastPre, verifSlot(r, n), 0)
 		n.c2.Broadcast()
 	}
 	return n.ch, nil
@@ -101,6 +109,7 @@ func (r *ring) NextWriteCmd() (one Completed, multi []Completed, ch chan RedisRe
 	} else {
 		r.read1--
 	}
+	verifEv(evWNext, int(p), verifB(ch != nil))
 	n.c1.L.Unlock()
 	return
 }
@@ -113,11 +122,14 @@ func (r *ring) WaitForWrite() (one Completed, multi []Completed, ch chan RedisRe
 	n.c1.L.Lock()
 	for n.mark != 1 {
 		n.slept = true
+		verifEv(evWPark, int(p), 0)
 		n.c2.Wait() // c1 and c2 share the same mutex
 		n.slept = false
+		verifEv(evWWake, int(p), 0)
 	}
 	one, multi, ch = n.one, n.multi, n.ch
 	n.mark = 2
+	verifEv(evWTake, int(p), 0)
 	n.c1.L.Unlock()
 	return
 }
@@ -138,13 +150,16 @@ func (r *ring) NextResultCh() (one Completed, multi []Completed, ch chan RedisRe
 	} else {
 		r.read2--
 	}
+	verifEv(evRNext, int(p), verifB(ch != nil))
 	return
 }
 
 // FinishResult should be only called by one dedicated thread
 func (r *ring) FinishResult() {
 	if r.resc != nil {
+		verifEv(evRUnlock, verifCondSlot(r, r.resc), 0)
 		r.resc.L.Unlock()
+		verifEv(evRSigPre, verifCondSlot(r, r.resc), 0)
 		r.resc.Signal()
 		r.resc = nil
 	}
